@@ -227,6 +227,30 @@ func init() {
 		m.callFrom(caller, args[1], nil)
 		return nil, true
 	}
+	// sync.Pool: a deterministic LIFO of the values that were Put (the real pool may hand back any of
+	// them or a new one; LIFO is the schedule that exposes stale state)
+	intrinsics["(*sync.Pool).Get"] = func(m *Machine, caller *frame, fn *ssa.Function, args []value) (value, bool) {
+		p := args[0].(*value)
+		if st := m.pools[p]; len(st) > 0 {
+			v := st[len(st)-1]
+			m.pools[p] = st[:len(st)-1]
+			m.logUndo(func() { m.pools[p] = append(m.pools[p], v) })
+			return v, true
+		}
+		// New is the last field of sync.Pool
+		fields := (*p).(structure)
+		newFn := fields[len(fields)-1]
+		if f, ok := newFn.(*ssa.Function); ok && f == nil {
+			return iface{}, true
+		}
+		return m.callFrom(caller, newFn, nil), true
+	}
+	intrinsics["(*sync.Pool).Put"] = func(m *Machine, caller *frame, fn *ssa.Function, args []value) (value, bool) {
+		p := args[0].(*value)
+		m.pools[p] = append(m.pools[p], args[1])
+		m.logUndo(func() { m.pools[p] = m.pools[p][:len(m.pools[p])-1] })
+		return nil, true
+	}
 	lockOp := func(kind string) intrinsicFn {
 		return func(m *Machine, caller *frame, fn *ssa.Function, args []value) (value, bool) {
 			m.lockEvent(kind, args[0].(*value))
